@@ -231,3 +231,47 @@ def str_consts(body, op, depth=4, _seen=None):
                 for a in c.args:
                     out |= str_consts(body, a, depth - 1, _seen)
     return out
+
+
+def edge_dominated(body, edge):
+    """blocks every entry-path to which takes `edge` (the 'arm' of that edge)"""
+    full = set(body.reach(0))
+    without = set(body.reach(0, cut_edges=[edge]))
+    return full - without
+
+
+def arms(body, switch_bb):
+    """for an enum switch: {variant: set(blocks dominated by that variant's edge)}"""
+    si = body.switch_info(switch_bb)
+    out = {}
+    for name, tgt in si["edges"].items():
+        if name == "else":
+            continue
+        out[name] = edge_dominated(body, (switch_bb, tgt))
+    if si.get("else_variants"):
+        blocks = edge_dominated(body, (switch_bb, si["edges"]["else"]))
+        for v in si["else_variants"]:
+            out.setdefault(v, blocks)
+    return out
+
+
+def calls_in(body, blocks, pat):
+    rx = re.compile(pat)
+    return [c for c in body.calls if c.bb in blocks and not c.cleanup and rx.search(c.nname)]
+
+
+def unit_variants_in(body, blocks, adt_suffix):
+    """fieldless/any aggregates of enum `adt_suffix` built in the given blocks: list of variant names"""
+    out = []
+    for (bb, j, v, _) in body.aggregates(adt_suffix):
+        if bb in blocks:
+            out.append(v["var"])
+    return out
+
+
+def param_enum_switches(body, adt_re, param=None):
+    """enum switches over ADT matching adt_re whose scrutinee derives from a parameter"""
+    return enum_switches_on(body, lambda L: any(l[0] in ("param", "upvar") and (param is None or l[1] == param) for l in L), adt_re)
+
+
+NEXT_TRANSPARENT = re.compile(TRANSPARENT.pattern[:-2] + r"|.*Iterator>::next|(std|core)::iter::Iterator::next|.*::iter|.*::into_iter|.*::iter_mut|(std|core)::iter::Iterator::(enumerate|rev|cloned|copied|peekable))$")
